@@ -94,6 +94,11 @@ def gen_defect(rng, data):
 
         nlb = R.NL(recs[i].get('_kind') or 'unix', eff)
 
+        if rng.chance(0.12):
+            # no content at all (length=0): nothing that could end in a
+            # newline
+            return ({'kind': 'empty_content', 'section': i}, i, kind)
+
         if len(nlb) > 1 and rng.chance(0.4):
             # only a fragment of the final newline is there (its last 1 ..
             # len-1 bytes are missing, the length says so)
